@@ -202,6 +202,7 @@ def _ops():
     o["OrL"] = ("bb", lambda em, a: em.Or([a[0], a[1]]), lambda s: s_nary("or", F, s))
     o["Or1"] = ("b", lambda em, a: em.Or(a[0]), lambda s: s_nary("or", F, s))
     o["Or0"] = ("", lambda em, a: em.Or(), lambda s: F)
+    o["Or0L"] = ("", lambda em, a: em.Or([]), lambda s: F)
     o["Not"] = ("b", lambda em, a: em.Not(a[0]), lambda s: s_not(s[0]))
     o["Implies"] = ("bb", lambda em, a: em.Implies(a[0], a[1]), lambda s: ("implies", s[0], s[1]))
     o["Iff"] = ("bb", lambda em, a: em.Iff(a[0], a[1]), lambda s: ("iff", s[0], s[1]))
@@ -219,9 +220,11 @@ def _ops():
     o["PlusL"] = ("nn", lambda em, a: em.Plus([a[0], a[1]]), lambda s: s_nary("plus", I0, s))
     o["Plus1"] = ("n", lambda em, a: em.Plus(a[0]), lambda s: s_nary("plus", I0, s))
     o["Plus0"] = ("", lambda em, a: em.Plus(), lambda s: I0)
+    o["Plus0L"] = ("", lambda em, a: em.Plus([]), lambda s: I0)
     o["Times2"] = ("nn", lambda em, a: em.Times(a[0], a[1]), lambda s: s_nary("times", I1, s))
     o["Times1"] = ("n", lambda em, a: em.Times([a[0]]), lambda s: s_nary("times", I1, s))
     o["Times0"] = ("", lambda em, a: em.Times(), lambda s: I1)
+    o["Times0L"] = ("", lambda em, a: em.Times([]), lambda s: I1)
     o["Minus"] = ("nn", lambda em, a: em.Minus(a[0], a[1]), lambda s: ("minus", s[0], s[1]))
     o["Div"] = ("nn", lambda em, a: em.Div(a[0], a[1]), lambda s: ("div", s[0], s[1]))
     o["Int"] = ("I", lambda em, a: em.Int(a[0]), lambda s: ("int", s[0]))
@@ -476,12 +479,74 @@ def h_history(ctx, ops, plan, lits=None, forms=None, leaves=("b1", "b2"), max_li
     ctx.witness("history")
 
 
+def h_alias(ctx):
+    """The model object stored as a node's payload must not alias a container the caller still holds: a fluent is built from a
+    caller-owned signature container, an expression is built over it, the caller then edits his container, and everything
+    observed before (signature, hash, equality with an independently built equal fluent, the node, a rebuilt node) must be unchanged."""
+    from collections import OrderedDict
+
+    from unified_planning.model import Fluent, Object, Parameter
+
+    env = ctx.fresh_env(hashcons="exact")
+    em, tm = env.expression_manager, env.type_manager
+    T = tm.UserType("T")
+    S = tm.UserType("S", T)
+    arity = 1 + ctx.choice("arity", 2)
+    names = ["l1", "l2"][:arity]
+    form = ("list", "odict")[ctx.choice("form", 2)]
+    if form == "list":
+        box = [Parameter(nm, T, env) for nm in names]
+    else:
+        box = OrderedDict((nm, T) for nm in names)
+    f = Fluent("visited", tm.BoolType(), box, env)
+    twin = Fluent("visited", tm.BoolType(), environment=env, **{nm: T for nm in names})
+    objs = [em.ObjectExp(Object(f"o{i}", T, env)) for i in range(arity)]
+    node = em.FluentExp(f, objs)
+    sig0 = [(q.name, q.type) for q in f.signature]
+    h0, id0, args0 = hash(f), node.node_id, tuple(node.args)
+    ctx.check(f == twin and hash(f) == hash(twin) and em.FluentExp(twin, objs) is node, "alias:twin-before",
+              "two equal fluents do not give the identical node")
+    mut = ctx.choice("mutation", 5)
+    if form == "list":
+        if mut == 0:
+            box.append(Parameter("l9", T, env))
+        elif mut == 1:
+            box.pop()
+        elif mut == 2:
+            box.clear()
+        elif mut == 3:
+            box[0] = Parameter("other", S, env)
+        else:
+            box.reverse()
+            ctx.assume(arity == 2)
+    else:
+        if mut == 0:
+            box["l9"] = T
+        elif mut == 1:
+            box.popitem()
+        elif mut == 2:
+            box.clear()
+        elif mut == 3:
+            box[names[0]] = S
+        else:
+            box.move_to_end(names[0])
+            ctx.assume(arity == 2)
+    ok = [(q.name, q.type) for q in f.signature] == sig0 and hash(f) == h0 and f == twin and f.arity == arity
+    ctx.check(ok, "alias:fluent-changed", "a fluent changed when the caller edited the container he built its signature from")
+    ok = node.node_id == id0 and tuple(node.args) == args0 and node.fluent() is f and len(node.args) == node.fluent().arity
+    ctx.check(ok, "immutable:changed", "operator, children, payload or id of an earlier node changed")
+    again = em.FluentExp(f, objs)
+    ctx.check(again is node, "hashcons:equal-terms-distinct-nodes", "the same expression was built twice and the two nodes are not identical")
+    ctx.check(em.FluentExp(twin, objs) is node, "hashcons:equal-terms-distinct-nodes", "the same expression over an equal fluent is a different node")
+    ctx.witness("alias")
+
+
 FAMILIES = {
     "bool": ["And2", "AndL", "And1", "And0", "Or2", "Or1", "Or0", "Not", "Implies", "Iff", "EqIffB", "Bool"],
-    "bool3": ["And3", "And2", "And1L", "And0L", "OrL", "Not", "TRUE", "FALSE"],
+    "bool3": ["And3", "And2", "And1L", "And0L", "OrL", "Or0L", "Not", "TRUE", "FALSE"],
     "rel": ["LE", "GE", "LT", "GT", "Equals", "EqIffN"],
-    "arith1": ["Plus2", "PlusL", "Plus1", "Plus0", "Minus", "Int"],
-    "arith2": ["Times2", "Times1", "Times0", "Div", "Real", "Plus2"],
+    "arith1": ["Plus2", "PlusL", "Plus1", "Plus0", "Plus0L", "Minus", "Int"],
+    "arith2": ["Times2", "Times1", "Times0", "Times0L", "Div", "Real", "Plus2"],
     "infix-n": ["iadd", "iradd", "isub", "imul", "ineg", "ipos", "Plus2", "Minus", "Times2"],
     "infix-r": ["ige", "igt", "ile", "ilt", "LE", "LT", "mEquals", "Equals"],
     "infix-b": ["iinv", "iand", "ior", "mNot", "Not", "And2", "Or2"],
@@ -527,6 +592,7 @@ def shards(tier, seed):
         add(f"direct-deep-{nm}", ops=ops, plan=["free"] * (4 if deep else 3), leaves=lv, engine="direct",
             lits="concrete" if numeric else None, forms=[2, 4] if numeric else None, max_lits=2 if deep else 1,
             window=2 if deep else None)
+    out.append(dict(name="direct-alias", fn="h_alias", kwargs={}, budget=3 * B, per_path=30, engine="direct"))
     # ---- symbolic literals: sharing of constants decided by the solver at the real lookup
     consts = ["Int", "Real", "Plus1", "Times1"]
     for first in consts if deep else consts[:3]:
